@@ -337,6 +337,18 @@ DetectorAgrees(c, D) == /\ Must(c)    => Detector(c, D)
 
 MultiResult(c) == c.kind \in {"zip", "sevenz"}
 
+(* ============================================================================ calls ===== *)
+(* Every detector / extractor call takes a STREAM whose read position the caller may have left anywhere
+   (header sniffing, a previous read, a detector that ran first).  The docstrings of the read_* extractors say
+   "the stream position is reset to the beginning before reading", and the property quantifies over INPUTS: neither
+   Class(c) nor Detector(c, D) nor the pipeline below has a position argument -- the verdict and the outcome are
+   functions of the container alone.  The harness therefore repeats the direct call with the stream at every
+   position of Positions, and in mode "after-detector" (the kind's detector function called first on the same
+   stream object, at a non-zero position, the extractor straight afterwards without rewinding); the traces of all
+   these calls are validated against the same, position-free specification.                                  *)
+Positions == { "start", "middle", "end" }
+CallModes == { "fresh", "after-detector" }
+
 (* =========================================================================== pipeline ==== *)
 (* One extraction of one container through any entry point (the direct extractor; read_file and the
    CLI only forward).  err: "none" | "Encrypted" (ExtractionFileEncryptedError) | "Other".        *)
